@@ -34,6 +34,8 @@ def fields(line):
 
 PARAM_OPS = ("MP", "MPR", "MPX")
 VARIANT_OPS = ("MV", "MVR", "MVX")
+CONTAINER_OPS = ("MPC", "MPCR", "MPCX")      # wire::marshal::container::marshal_container_param on a bare context
+RAW_OPS = CONTAINER_OPS + ("MA",)             # MA: the free function message_builder::marshal_as_variant. No body: no signature, no rollback
 
 
 def make_cases(ctx, n_per_type, thorough):
@@ -42,7 +44,7 @@ def make_cases(ctx, n_per_type, thorough):
     cases = []
 
     def add(stream, op, ty, t, bo, prefix, toks, bad=False, cls=None):
-        sig = "y" * prefix + ("v" if op in VARIANT_OPS else (wg.erased(t) if t else ""))
+        sig = "" if op in RAW_OPS else "y" * prefix + ("v" if op in VARIANT_OPS else (wg.erased(t) if t else ""))
         cases.append({"stream": stream, "op": op, "ty": ty, "t": t, "bo": bo, "prefix": prefix, "toks": toks, "bad": bad, "cls": cls, "sig": sig})
 
     for line in wg.corpus_lines("C02"):
@@ -60,8 +62,14 @@ def make_cases(ctx, n_per_type, thorough):
             bad = (i % 4 == 3) and wg.count_leaves(t, "sogh") > 0
             toks, isbad = wg.gen_value(r, t, bad=bad)
             add("catalogue", "MT", ty, t, bo, prefix, toks, isbad)
+            if i % 8 == 6:
+                add("catalogue", "MA", ty, t, bo, prefix, toks, isbad)
+            if wg.forbidden_variant_content(t):
+                continue                  # the dynamic API cannot name a type whose signature is invalid
             if i % 2 == 0:
                 add("catalogue", PARAM_OPS[(i // 2 + r.randrange(3)) % 3], ty, t, bo, prefix, toks, isbad)
+            if i % 4 == 1 and t[0] != "b":
+                add("catalogue", CONTAINER_OPS[r.randrange(3)], ty, t, bo, prefix, toks, isbad)
             if i % 8 == 5 or (t[0] == "v" and i % 4 == 1):
                 # the same value inside a params::Variant pushed through the typed API
                 vt = toks if t[0] == "v" else ["v", wg.erased(t)] + toks
@@ -79,6 +87,8 @@ def make_cases(ctx, n_per_type, thorough):
         prefix = ri.randrange(16)
         for op in PARAM_OPS:
             add("inconsistent", op, None, None, bo, prefix, toks, cls=cls)
+        if toks[0] in "arev":
+            add("inconsistent", ri.choice(CONTAINER_OPS), None, None, bo, prefix, toks, cls=cls)
         if toks[0] == "v":
             add("inconsistent", ri.choice(VARIANT_OPS), None, None, bo, prefix, toks, cls=cls)
         else:
@@ -91,8 +101,8 @@ def make_cases(ctx, n_per_type, thorough):
 
 def line_of(c, val=None, model=False):
     v = val if val is not None else " ".join(c["toks"])
-    if c["op"] == "MT":
-        return "MT %s %s %d %s" % (c["ty"], c["bo"], c["prefix"], v)
+    if c["op"] in ("MT", "MA"):
+        return "%s %s %s %d %s" % (c["op"], c["ty"], c["bo"], c["prefix"], v)
     return "%s %s %d %s" % (c["op"], c["bo"], c["prefix"], v)
 
 
@@ -207,12 +217,13 @@ def run(ctx):
             tree, _ = wg.parse_tokens(toks, 0)
             inconsistent = not wg.tree_consistent(tree)
             classes.setdefault(c["cls"], [0, 0])[0 if inconsistent else 1] += 1
+        raw = op in RAW_OPS
         if inconsistent:
             # the side condition of the dynamic API fails: the tree must be refused and leave no trace (the specification's
             # encoder is defined on well-typed values only, so it is not consulted)
             if fi["res"] == "ok":
                 why = "an inconsistent Param tree (%s) was marshalled instead of refused" % c["cls"]
-            elif fi.get("buf", "-") != (pre.hex() or "-"):
+            elif not raw and fi.get("buf", "-") != (pre.hex() or "-"):
                 why = "a refused Param tree left bytes in the body"
         elif fi["res"] == "ok":
             if c["stream"] == "inconsistent":
@@ -221,14 +232,14 @@ def run(ctx):
                 why = "a value without a valid encoding was marshalled instead of refused"
             elif fi["buf"] != fm["spec"]:
                 why = "marshalled bytes differ from the D-Bus encoding"
-            elif fi["sig"] != expect_sig:
+            elif not raw and fi["sig"] != expect_sig:
                 why = "signature differs from the type's D-Bus signature"
         else:
             if fm["encodable"] == "true":
                 why = "an encodable value was refused"
-            elif fi.get("buf", "-") != (pre.hex() or "-"):
+            elif not raw and fi.get("buf", "-") != (pre.hex() or "-"):
                 why = "a refused value left bytes in the body"
-        if fi["res"] == "err" and why is None and fi.get("sig", "-") != (("y" * prefix).encode().hex() or "-"):
+        if not raw and fi["res"] == "err" and why is None and fi.get("sig", "-") != (("y" * prefix).encode().hex() or "-"):
             why = "a refused value left signature characters in the body"
         agree = lm is None or ((fi["res"] == fm["res"]) and (fi["res"] != "ok" or (fi["buf"] == fm["buf"] and fi["nfds"] == fm["nfds"])))
         if why:
@@ -241,7 +252,8 @@ def run(ctx):
     ctx.extra["inconsistent_stream"] = {k: {"inconsistent": v[0], "consistent": v[1]} for k, v in sorted(classes.items())}
     ncat, nmo = len(wg.catalogue()), len(wg.catalogue_marshal_only())
     ctx.rule = ("case = (API: typed push_param MT | dynamic push_old_param of an owned / borrowing / alternating Param tree MP, MPR, MPX | "
-                "params::Variant through the typed API MV, MVR, MVX; type; byte order; prefix length 0..15 made of preceding u8 parameters; value). "
+                "params::Variant through the typed API MV, MVR, MVX | marshal_container_param on a bare context MPC, MPCR, MPCX | the free function "
+                "marshal_as_variant MA; type; byte order; prefix length 0..15 made of preceding u8 parameters; value). "
                 "Stream 1: %d catalogue types + %d marshal-only 5-tuple types x %d values (each typed, every second also dynamic, some as a typed "
                 "params::Variant); values are boundary-biased (empty containers, min/max integers, NaNs, multi-byte UTF-8) and one in four has one "
                 "unencodable leaf. Stream 2 (big, %d cases): length fields >= 64 KiB, strings of 255..70000 bytes, 64..100 containers in one "
